@@ -356,6 +356,15 @@ func MetaDataKVHandler(resHolder *SearchResult, attrGetter AttributeGetter, addi
 	var dbValInt signed256.Int
 	fltVals := make([]signed256.Int, len(fs))
 	fltValReady := make([]bool, len(fs))
+	// filters on the primary attribute which cannot be evaluated on the primary index key (other kind of index or
+	// NOT_PRESENT) are checked against the stored value like filters on other attributes.
+	onPrimKey := func(i int) bool {
+		if i == 0 {
+			return true
+		}
+		m, _ := convertFilterValue(fs[i].SearchFilter)
+		return fs[i].Header() == fs[0].Header() && m != object.MatchNotPresent && IsIntegerSearchOp(m) == intPrimMatcher
+	}
 
 	return func(k, v []byte) bool {
 		defer func() {
@@ -388,13 +397,10 @@ func MetaDataKVHandler(resHolder *SearchResult, attrGetter AttributeGetter, addi
 				// there may be several filters by primary key, e.g. N >= 10 && N <= 20. We
 				// check them immediately before moving through the DB.
 				attr := fs[i].Header()
-				if i > 0 && attr != fs[0].Header() {
+				if !onPrimKey(i) {
 					continue
 				}
 				mch, val := convertFilterValue(fs[i].SearchFilter)
-				if mch == object.MatchNotPresent { // here i > 0: the object does have the primary attribute
-					return true
-				}
 				var matches bool
 				if IsIntegerSearchOp(mch) {
 					matches = fs[i].AutoMatch || intBytesMatch(primDBVal, mch, fs[i].Raw)
@@ -420,7 +426,7 @@ func MetaDataKVHandler(resHolder *SearchResult, attrGetter AttributeGetter, addi
 		}
 		// apply other filters
 		for i := range fs {
-			if !idIter && (i == 0 || fs[i].Header() == fs[0].Header()) { // 1st already checked
+			if !idIter && onPrimKey(i) { // already checked
 				continue
 			}
 			attr := fs[i].Header() // emptiness already prevented
